@@ -39,6 +39,33 @@ def execute(rules, S, names):
     ld = find_single_node_LDOIs(g)
     out["ldoi"] = {(names.index(k[0]), int(k[1])): t_of(names, v) for k, v in ld.items()}
     out["drivers"] = sorted((names.index(k[0]), int(k[1])) for k in find_single_drivers(dict(sd), g, ld))
+    # the same queries through a BooleanNetwork OBJECT that was used for a different network before and then edited in
+    # place (set_update_function): the answers must be those of the network the object holds NOW
+    from engine import oracles
+    from engine.cab import CTX
+    BN = oracles.REAL.get("BooleanNetwork", BooleanNetwork)
+    cur = BN.from_bnet(rules).infer_valid_graph()
+    vs = list(cur.variable_names())
+    CTX.opaque += 1
+    try:
+        o = BN(vs)
+        for a in vs:
+            for b in vs:
+                o.add_regulation({"source": a, "target": b, "essential": False, "sign": None})
+        for a in vs:
+            o.set_update_function(a, a)                    # first life of the object: every variable an input
+        find_single_node_LDOIs(o)
+        find_single_drivers({vs[0]: 1}, o)
+        for a in vs:
+            o.set_update_function(a, str(cur.get_update_function(a)))      # edited in place: now the current network
+        ld2 = find_single_node_LDOIs(o)
+        out["ldoi_edited_object"] = {(names.index(k[0]), int(k[1])): t_of(names, v) for k, v in ld2.items()}
+        out["drivers_edited_object"] = sorted((names.index(k[0]), int(k[1])) for k in find_single_drivers(dict(sd), o))
+    except Exception as e:
+        out["ldoi_edited_object"] = "raised " + type(e).__name__ + ": " + str(e)[:100]
+        out["drivers_edited_object"] = None
+    finally:
+        CTX.opaque -= 1
     return out
 
 
@@ -106,6 +133,10 @@ def assertion(B, out):
                 val = out["ldoi"][v, b]
                 for (u, c), f in sp.items():
                     parts.append((f"LDOI({B.names[v]}={b}) contains {B.names[u]}={c} iff strict percolation does", B.Iff(f, B.const(val[u] == c))))
+    if "ldoi_edited_object" in out:
+        parts.append((f"LDOI table through a network object that was edited in place equals the table of the current network ({str(out['ldoi_edited_object'])[:80]})",
+                      B.const(out["ldoi_edited_object"] == out["ldoi"])))
+        parts.append(("single drivers through the edited network object equal those of the current network", B.const(out["drivers_edited_object"] == out["drivers"])))
     want = sorted(k for k, val in out["ldoi"].items() if all(S[i] is None or val[i] == S[i] or (k == (i, S[i])) for i in range(n)))
     parts.append(("single drivers = keys whose LDOI (plus the key) contains the target", B.const(want == out["drivers"])))
     return parts
